@@ -1307,7 +1307,21 @@ class BinaryOperator(SymbolicExpression, ABC):
         super().__post_init__()
         self.left, self.right = self._update_children_(self.left, self.right)
         combined_vars = self.left._unique_variables_.union(self.right._unique_variables_)
-        self._cache_.keys = [v.id_ for v in combined_vars.filter(lambda v: not isinstance(v.value, Literal))]
+        self._cache_.keys = [v.id_ for v in combined_vars.filter(lambda v: not isinstance(v.value, Literal))] \
+            + self._ids_of_flattened_expressions_(self.left, self.right)
+
+    @staticmethod
+    def _ids_of_flattened_expressions_(*expressions: SymbolicExpression) -> List[int]:
+        """
+        A flattened expression has several values for one binding of its variables, so a result that depends on it is
+        not determined by the values of the variables alone and has to be cached per flattened value as well.
+        """
+        ids = []
+        for expression in expressions:
+            for node in [expression] + expression._descendants_:
+                if isinstance(node, Flatten) and node._id_ not in ids:
+                    ids.append(node._id_)
+        return ids
 
     def yield_final_output_from_cache(self, variables_sources, cache: Optional[IndexedCache] = None) \
             -> Iterable[Dict[int, HashedValue]]:
@@ -1590,7 +1604,7 @@ class LogicalOperator(BinaryOperator, ABC):
     def __post_init__(self):
         super().__post_init__()
         right_vars = self.right._unique_variables_.filter(lambda v: not isinstance(v, Literal))
-        self.right_cache.keys = [v.id_ for v in right_vars]
+        self.right_cache.keys = [v.id_ for v in right_vars] + self._ids_of_flattened_expressions_(self.right)
 
     @property
     def _name_(self):
